@@ -184,7 +184,7 @@ class SymEval:
                 return int(e[2])
             if e[1] == "bool":
                 return bool(e[2])
-            if e[1] == "str":
+            if e[1] in ("str", "char"):
                 return ("str", e[2])
             return ("sym", show(e))
         if k == "path":
@@ -930,6 +930,22 @@ class SymEval:
                 return ("list", list(items) + list(args[0][1]))
             if m == "chain" and (args[0] == NONE or (isinstance(args[0], tuple) and args[0][0] == "some")):
                 return ("list", list(items) + ([args[0][1]] if args[0] != NONE else []))
+        if isinstance(recv, tuple) and recv and recv[0] == "fmt" and isinstance(recv[1], list):
+            # a String under construction: the pieces are appended in place
+            if m in ("push_str", "push") and len(args) == 1:
+                a0 = args[0]
+                recv[1].append(a0[1] if isinstance(a0, tuple) and a0 and a0[0] == "str" else ("hole", a0, ""))
+                return UNIT
+            if m == "write_fmt" and len(args) == 1:
+                recv[1].append(("hole", args[0], ""))
+                return ("ok", UNIT)
+            if m == "write_str" and len(args) == 1:
+                a0 = args[0]
+                recv[1].append(a0[1] if isinstance(a0, tuple) and a0 and a0[0] == "str" else ("hole", a0, ""))
+                return ("ok", UNIT)
+            if m == "clear" and not args:
+                del recv[1][:]
+                return UNIT
         if isinstance(recv, tuple) and recv and recv[0] == "map" and isinstance(recv[1], dict):
             d = recv[1]
 
